@@ -32,7 +32,7 @@ def parseEv (j : Json) : Option Ev :=
       max := intArg j "max", timeout := intArg j "timeout", lang := langOf ((getNat j "lang").getD 0),
       query := (getBool j "query").getD false, coe := (getBool j "coe").getD false,
       rqrc := (getBool j "rqrc").getD false, coeType := (getBool j "coetype").getD false,
-      filterType := (getBool j "filtertype").getD false })
+      filterType := (getBool j "filtertype").getD false, srcIsClass := (getBool j "srcclass").getD false })
   | some "next" => some (.next ((getNat j "g").getD 0))
   | some "close" => some (.close ((getNat j "g").getD 0))
   | some "drop" => some (.drop ((getNat j "g").getD 0))
